@@ -25,7 +25,10 @@ RULE = ('(i) extraction: the coercion matrix = every source kind (one minimal wi
         'to the model\'s JSON and compared with the Lean model; (iii) sweep: every (source kind, target mode) pair x operand '
         'shapes (0/1/2/3 elements, nested, starred, parenthesised, multi-line, comments) x both routes, property evaluated on '
         'the result (incl. the location of every node against the parse by pfst AND a CPython embedding of the result source, byte columns, '
-        'both routes); identifier / string alphabets include multi-byte names, alone, before other elements on the line, and everywhere; '
+        'both routes, and the cached .loc of every located node against its AST position); identifier / string alphabets include '
+        'multi-byte names, alone, before other elements on the line, and everywhere; every table shape also runs with all identifiers '
+        'and plain strings made multi-byte (m<i>) in every cell where the kind is coerced; an AssertionError / IndexError / KeyError / '
+        'TypeError / RuntimeError escaping a coercion is an internal error, not a refusal; '
         'for every (container kind, target) cell in which some operand is coerced (thorough: every target) '
         'element-class shapes of the container (every positional class alone, every ordered pair, all together, the name `_` in '
         'every position: arguments posonly/plain/default/vararg/kwonly/kwonly-default/kwarg, _type_params, _arglikes, Call, '
@@ -355,6 +358,11 @@ def _store_insensitive(d):
 # ---------------------------------------------------------------------------------------------------------------------
 # one (operand, target) evaluation: the property itself
 
+# a refusal is NodeError / ValueError / SyntaxError / ParseError / NotImplementedError (and, on the unchanged tree, the AttributeError
+# of the two_step hack); these classes are never a refusal: an `assert` or an indexing slip inside the coercion code
+INTERNAL = (AssertionError, IndexError, KeyError, TypeError, UnboundLocalError, RuntimeError, ZeroDivisionError)
+
+
 def _h(*parts):
     return int(hashlib.blake2b('|'.join(map(str, parts)).encode(), digest_size=4).hexdigest(), 16)
 
@@ -416,6 +424,22 @@ def _check_result(res, route, r, target, leaves0, exp):
                     fails.append((route, 'positions(cpython)', f'result tree is not located where CPython locates the nodes of its '
                                   f'source {src!r}: ' + M_first_diff(_store_insensitive(a_), _store_insensitive(b_))))
         res['embedded'] = True
+    # every located node's cached `.loc` is its AST position (byte columns converted by the harness): no stale location cache
+    lines = src.split('\n')
+    try:
+        for f in r.walk(True):
+            a = f.a
+            if getattr(a, 'end_col_offset', None) is None or getattr(a, 'lineno', None) is None:
+                continue
+            want = (a.lineno - 1, len(lines[a.lineno - 1].encode()[:a.col_offset].decode(errors='replace')),
+                    a.end_lineno - 1, len(lines[a.end_lineno - 1].encode()[:a.end_col_offset].decode(errors='replace')))
+            loc = f.loc
+            if loc is not None and tuple(loc[:4]) != want and not any(c[1] == 'positions' for c in fails):
+                fails.append((route, 'loc-cache', f'{a.__class__.__name__} node reports loc {tuple(loc[:4])}, its AST position is {want} '
+                              f'in result source {src!r}'))
+                break
+    except Exception as e:
+        fails.append((route, 'walk-raises', f'walking the result raised {type(e).__name__}: {str(e)[:80]}'))
     # leaves
     lv = M.leaves(r.a)
     if lv != leaves0:
@@ -485,6 +509,9 @@ def _eval_pair(arg):
         except Exception as e:
             on = 'refuses:' + type(e).__name__
             rb = None
+            if isinstance(e, INTERNAL):
+                res['fails'].append((route, 'internal-error', f'coercion died with {type(e).__name__}: {str(e)[:100]} (an internal '
+                                     'invariant failure, not a refusal)'))
         res['out'][route] = (off, on)
         if rb is None:
             continue
@@ -562,10 +589,31 @@ def xshapes():
 
 
 def operand(kind, label):
-    """(parse mode, source) of the operand named by a signature: `s<i>` = SOURCES shape, `x<i>` = element-class shape"""
-    tbl = SOURCES if str(label).startswith('s') or isinstance(label, int) else xshapes()
+    """(parse mode, source) of the operand named by a signature: `s<i>` = SOURCES shape, `m<i>` = its multi-byte variant,
+    `x<i>` = element-class shape"""
+    label = str(label)
+    if label.startswith('m'):
+        pmode, shapes = SOURCES[kind]
+        return pmode, M.mb_variant(shapes[int(label[1:])])
+    tbl = SOURCES if label.startswith('s') or label.isdigit() else xshapes()
     pmode, shapes = tbl[kind]
-    return pmode, shapes[int(str(label).lstrip('sx'))]
+    return pmode, shapes[int(label.lstrip('sx'))]
+
+
+def mb_pairs(full, coercing):
+    """every SOURCES shape with every identifier and plain string made multi-byte (`m<i>`), for every (kind, target) cell in which
+    some operand of the kind is coerced; thorough: for every target"""
+    targets = target_modes()
+    jobs = []
+    for kind, (pmode, shapes) in SOURCES.items():
+        ms = [(i, M.mb_variant(x)) for i, x in enumerate(shapes)]
+        ms = [(i, x) for i, x in ms if x is not None]
+        for t in targets:
+            if t in NOT_SWEPT or (not full and (kind, t) not in coercing):
+                continue
+            for i, x in ms:
+                jobs.append((kind, f'm{i}', pmode, x, t))
+    return jobs
 
 
 def extra_pairs(full, rng, coercing):
@@ -593,11 +641,14 @@ def coercing_cells(results):
 
 def pairs(ctx, full, rng):
     targets = target_modes()
+    xs = xshapes()
     jobs = []
     for kind, (pmode, shapes) in SOURCES.items():
         for si, src in enumerate(shapes):
             for t in targets:
-                if t in NOT_SWEPT or (not full and si >= 2 and t not in PRINCIPAL and rng.random() > 0.12):
+                # quick: all shapes for the principal targets and for the container kinds (their results decide, deterministically,
+                # in which cells the element-class shapes run); the rest: first two shapes + a random sample
+                if t in NOT_SWEPT or (not full and si >= 2 and t not in PRINCIPAL and kind not in xs and rng.random() > 0.12):
                     continue
                 jobs.append((kind, f's{si}', pmode, src, t))
     return jobs
@@ -729,6 +780,12 @@ def put_jobs(full, rng):
                     continue
                 for route in ('fst', 'ast'):
                     jobs.append((name, csrc, cmode, how, target, kind, f'x{si}', pmode, src, route))
+        for kind, (pmode, shapes) in SOURCES.items():
+            for si, src in enumerate(shapes):
+                msrc = M.mb_variant(src)
+                if msrc is None or (not full and rng.random() > 0.5):
+                    continue
+                jobs.append((name, csrc, cmode, how, target, kind, f'm{si}', pmode, msrc, 'fst'))
     return jobs
 
 
@@ -760,6 +817,7 @@ def sweep(ctx):
     cells = coercing_cells(res)
     xres = pmap(_eval_pair, extra_pairs(not ctx.quick, rng, cells))
     ctx.notes['sweep_element_class_pairs'] = _report(ctx, xres)
+    ctx.notes['sweep_multibyte_variant_pairs'] = _report(ctx, pmap(_eval_pair, mb_pairs(not ctx.quick, cells)))
     ctx.notes['coercing_cells_of_container_kinds'] = len([c for c in cells if c[0] in xshapes()])
     pj = put_jobs(not ctx.quick, rng)
     ctx.notes['sweep_puts'] = _report_puts(ctx, pmap(_eval_put, pj))
@@ -775,6 +833,7 @@ def search(ctx):
     res = pmap(_eval_pair, pairs(ctx, True, rng))
     ctx.notes['search_pairs'] = _report(ctx, res)
     ctx.notes['search_element_class_pairs'] = _report(ctx, pmap(_eval_pair, extra_pairs(True, rng, set())))
+    ctx.notes['search_multibyte_variant_pairs'] = _report(ctx, pmap(_eval_pair, mb_pairs(True, set())))
     ctx.notes['search_puts'] = _report_puts(ctx, pmap(_eval_put, put_jobs(True, rng)))
     # wider operands: generated sources through the two principal targets
     g = M.SrcGen(rng)
